@@ -259,6 +259,10 @@ func (ef *Filter) Process(ctx context.Context, e *eventlogger.Event) (*eventlogg
 		default:
 			for i := 0; i < payloadValue.Len(); i++ {
 				f := payloadValue.Index(i)
+				if isNilValue(f) {
+					// nothing to filter in a nil element
+					continue
+				}
 				if ef.ignore(f) {
 					continue
 				}
@@ -408,6 +412,10 @@ func (ef *Filter) filterField(ctx context.Context, v reflect.Value, filterOverri
 			default:
 				for i := 0; i < field.Len(); i++ {
 					f := field.Index(i)
+					if isNilValue(f) {
+						// nothing to filter in a nil element
+						continue
+					}
 					if ef.ignore(f) {
 						continue
 					}
@@ -750,6 +758,15 @@ func setValue(fv reflect.Value, newVal string) error {
 		return fmt.Errorf("%s: unable to set field value since is not a string or []byte: %s: %w", op, fv.String(), ErrInvalidParameter)
 	}
 	return nil
+}
+
+// isNilValue reports whether v is a nil pointer or a nil interface.
+func isNilValue(v reflect.Value) bool {
+	switch v.Kind() {
+	case reflect.Ptr, reflect.Interface:
+		return v.IsNil()
+	}
+	return false
 }
 
 func (f *Filter) ignore(v reflect.Value) bool {
